@@ -81,6 +81,12 @@ CHECKS = {
 }
 # additions made after the second round of seeded changes (appended to the texts above)
 ADD = {
+ "C17": (" schema/ is built with the map-order seam and every operation runs under the sorted and every single deviating iteration order of every map it ranges over: which element a rejection names must not depend on it.",
+         "exhaustive single-fault enumeration over every position of bounded inputs with a by-construction path oracle, each under exhaustive (deviation-bounded) map-iteration orders"),
+ "C19": (" Names include identifiers starting with a non-ASCII letter and names that are proper parts of each other (and of the ignore argument).", None),
+ "C07": (" The alphabet includes a work-start whose input the step's schema rejects.", None),
+ "C05": (" A map-based echo step carries a payload-rich input (integer-keyed map, nested collections, nested object, any) in a v3 and a v1 session.", None),
+ "C11": (" Part U includes a signal whose handler is declared for another step data type than the step creates.", None),
  "C02": (" Schemas with units are additionally raced on first use: two threads unserialize accepted unit strings on one fresh schema under the cooperative scheduler, all schedules with <= 2 preemptions, vector-clock race scan and denoted results.",
          "exhaustive enumeration of a bounded (schema, value) universe against a reference model (differential, small-scope); first-use paths of unit-bearing schemas by preemption-bounded schedule exploration with race detection"),
  "C03": (" Every map-based object and one-of is checked twice: built by the constructors, and loaded from its own description through the meta-schema without any constructor (first use of all lazily computed state).", None),
